@@ -5,6 +5,7 @@ and are explored by re-execution (smt.Explorer).  Exceptions of the interpreted 
 as values.PyRaise through the interpreter's own Python stack.
 """
 import ast
+import os
 import z3
 
 from . import values as V
@@ -307,7 +308,11 @@ class Frame:
     def st_Assert(self, s):
         c = self.truth(self.eval(s.test))
         if not c:
-            raise PyRaise('AssertionError')
+            if os.environ.get('PYVC_DEBUG'):
+                print('ASSERT FAILS at', self.f.qualname, getattr(s, 'lineno', None), ast.unparse(s.test)[:100])
+            e = PyRaise('AssertionError')
+            e.line = getattr(s, 'lineno', None); e.func = self.f.qualname
+            raise e
 
     def st_Raise(self, s):
         if s.exc is None:
